@@ -10,7 +10,7 @@ run_seed() { id=$1; v=$2; props=$3; wt=/tmp/wt/$id-$v; dir=/verif/seeded/$id-$v
   echo "seed $id-$v rc=$best"; rm -rf $wt; }
 export -f run_clean run_seed
 ( for i in 01 02 03 04 05 06 07 08 09 10 11 12 13 14 15 16 17 18 19 20; do echo "run_clean C$i"; done
-  for i in 01 02 03 04 05 06 07 08 09 10 11 12 13 14 15 16 17 18 19 20; do for v in a b c d e f g h i j k l m n o p q r s t u v w x y z za zb zc zd ze zf zg zh zi zj zk zl; do
+  for i in 01 02 03 04 05 06 07 08 09 10 11 12 13 14 15 16 17 18 19 20; do for v in a b c d e f g h i j k l m n o p q r s t u v w x y z za zb zc zd ze zf zg zh zi zj zk zl zm zn; do
     d=/verif/seeded/C$i-$v; [ -f $d/patch.diff ] || continue
     props="C$i"; [ -f $d/meta.json ] && extra=$(/venv/bin/python -c "import json,sys; print(' '.join(json.load(open('$d/meta.json')).get('also_checked_by',[])))" 2>/dev/null) && props="$props $extra"
     echo "run_seed C$i $v \"$props\""; done; done ) | xargs -P 16 -I{} bash -c "{}" | sort > /tmp/evid_scratch/regress.txt
